@@ -21,7 +21,7 @@ var (
 )
 
 func checkC17(p *core.Prog, r *core.Report) {
-	r.Explanation = "Decides structural necessary conditions of exact counts and reclamation: (R1) in every engine function, on every path and inside each shard-mutex section, LockedCount moves iff the key's depth moves and in the same direction; WaitCount++ pairs with AddWaitLock; WaitCount-- happens at most once per path and exactly on the paths where a queued request leaves the queue (grant in wakeUpWaitLock, waiter arm of doTimeOut / cancelWaitLock), helpers inlined; (R2) at every reply the LCount argument is uint16(<*LockManager>.locked) or constant 0 and LRCount is <*Lock>.locked or 0; (R3) in the request-path functions the reference count of a lock is raised exactly for its wheel insertions and ack registrations (no missing and no surplus reference); (R4) every Lock.refCount decrement is followed on its path by the zero test that guards FreeLock (tabled exceptions: RemoveLock, RemoveLongTimeOut, RemoveLongExpried, whose callers test); (R5) RemoveLockManager clears the value and resets the queues before the manager is recycled and decrements KeyCount once. (R6) the compaction loops of the per-key holder and wait queues return the queue's reference for every entry they drop. NOT decided: numeric exactness of the magnitudes, drain to zero, unreachability of freed objects."
+	r.Explanation = "Decides structural necessary conditions of exact counts and reclamation: (R1) in every engine function, on every path and inside each shard-mutex section, LockedCount moves iff the key's depth moves and in the same direction; WaitCount++ pairs with AddWaitLock; WaitCount-- happens at most once per path and exactly on the paths where a queued request leaves the queue (grant in wakeUpWaitLock, waiter arm of doTimeOut / cancelWaitLock), helpers inlined; (R2) at every reply the LCount argument is uint16(<*LockManager>.locked) or constant 0 and LRCount is <*Lock>.locked or 0; (R3) in the request-path functions the reference count of a lock is raised exactly for its wheel insertions and ack registrations (no missing and no surplus reference); (R4) every Lock.refCount decrement is followed on its path by the zero test that guards FreeLock (tabled exceptions: RemoveLock, RemoveLongTimeOut, RemoveLongExpried, whose callers test); (R5) RemoveLockManager clears the value and resets the queues before the manager is recycled and decrements KeyCount once. (R6) the compaction loops of the per-key holder and wait queues return the queue's reference for every entry they drop. (R7) a function that answers a queued request itself (timeout, cancel) sets its tombstone before it scans the wait queue with GetWaitLock (the scan is what unlinks answered entries and decides `waited`). NOT decided: numeric exactness of the magnitudes, drain to zero, unreachability of freed objects."
 	r.Assumptions = []string{"Go type checker, go/ssa and VTA call graph are correct for /repo", "counters are only compared by direction and pairing, not magnitude"}
 	c17R1(p, r)
 	c17R2(p, r)
@@ -29,6 +29,7 @@ func checkC17(p *core.Prog, r *core.Report) {
 	c17R4(p, r)
 	c17R5(p, r)
 	c17R6(p, r)
+	c17R7(p, r)
 }
 
 var c17Engine = []string{
@@ -687,5 +688,86 @@ func c17R6(p *core.Prog, r *core.Report) {
 		if visited == 0 {
 			r.Violate(rule, name+": compaction entry", p.Pos(fn.Pos()), "no compaction loop over the fast slice found", nil)
 		}
+	}
+}
+
+// c17R7: GetWaitLock is the only place that unlinks answered requests from a
+// key's wait queue (it drops the entries whose tombstone is set while looking
+// for the first live waiter) and its result decides lockManager.waited. A
+// function that answers a queued request itself (timeout, cancel) must set
+// that request's tombstone before it asks GetWaitLock, otherwise the request
+// it is answering is reported as the live head: it stays linked, keeps its
+// reference, and the key's manager is never reclaimed.
+func c17R7(p *core.Prog, r *core.Report) {
+	const rule = "C17/R7"
+	r.Rule(rule, "a function that tombstones a queued request it answers itself (timeouted = true on a Lock not obtained from GetWaitLock) does so before it calls GetWaitLock on that path", 2)
+	tomb := fk("server.Lock", "timeouted")
+	n := 0
+	for _, fn := range p.FuncsIn("server") {
+		if fn.Blocks == nil || p.IsNewFunc(fn) {
+			continue
+		}
+		calls, stores := false, false
+		for _, b := range fn.Blocks {
+			for _, ins := range b.Instrs {
+				if calleeIs(ins, "LockManager", "GetWaitLock") {
+					calls = true
+				}
+				if st, ok := ins.(*ssa.Store); ok {
+					if k, ok := storeKey(st.Addr); ok && k == tomb {
+						stores = true
+					}
+				}
+			}
+		}
+		if !calls || !stores {
+			continue
+		}
+		name := core.FuncName(fn)
+		bad := false
+		seen := false
+		ex := core.NewExplorer(p, core.Hooks{
+			Instr: func(x *core.X) {
+				if calleeIs(x.Ins, "LockManager", "GetWaitLock") {
+					x.Set("scanned", "1")
+					return
+				}
+				st, ok := x.Ins.(*ssa.Store)
+				if !ok {
+					return
+				}
+				k, ok := storeKey(st.Addr)
+				if !ok || k != tomb || x.Canon(st.Val).S != "true" {
+					return
+				}
+				fa, ok := st.Addr.(*ssa.FieldAddr)
+				if !ok {
+					return
+				}
+				target := core.Plain(x.Canon(fa.X).S)
+				if strings.Contains(target, "GetWaitLock(") {
+					return // the live head the scan returned (a grant), not a request answered here
+				}
+				seen = true
+				if x.Get("scanned") == "1" && !bad {
+					bad = true
+					r.Violate(rule, name+": tombstone before the waiter scan", x.Pos(), "the wait queue was scanned (GetWaitLock) before "+target+".timeouted was set: the scan takes the request being answered for a live waiter, does not unlink it and reports the queue non-empty - the answered request stays linked with its reference and the key's manager is never reclaimed (KeyCount never returns to 0)", x.St.Trace)
+				}
+			},
+		})
+		ex.NoHist = true
+		ex.Run(fn, nil)
+		if ex.Imprecise != "" {
+			r.Fail("C17/R7 %s: %s", name, ex.Imprecise)
+		}
+		if seen {
+			n++
+			if !bad {
+				r.Hold(rule, name+": tombstone before the waiter scan", p.Pos(fn.Pos()), "tombstone set before GetWaitLock on every path")
+			}
+		}
+	}
+	if n == 0 {
+		r.Fail("C17/R7: no function tombstones a request and scans the wait queue")
 	}
 }
